@@ -207,6 +207,136 @@ def run_real(witness, params, timeline):
     return truncate(rec.steps)
 
 
+def _feed(subj, ev, recs):
+    for r in recs:
+        r.mark()
+    try:
+        if ev[0] == "N":
+            subj.on_next(ev[1])
+        elif ev[0] == "E":
+            subj.on_error(ev[1])
+        else:
+            subj.on_completed()
+    except Exception as e:
+        for r in recs:
+            r.steps[-1].append(("ESCAPED", type(e).__name__, str(e)[:80]))
+
+
+def run_real_resub(witness, params, timeline):
+    """C04: two overlapping subscriptions to ONE observable object, then a third after the run"""
+    import reactivex
+    from reactivex import operators as ops
+    from reactivex.subject import Subject
+
+    env = {"ops": ops, "reactivex": reactivex, "rx": reactivex}
+    env.update(params)
+    subj = Subject()
+    obs = subj.pipe(eval(witness, env))
+    r1, r2 = Recorder(), Recorder()
+    obs.subscribe(r1.on_next, r1.on_error, r1.on_completed)
+    obs.subscribe(r2.on_next, r2.on_error, r2.on_completed)
+    for ev in timeline:
+        _feed(subj, ev, [r1, r2])
+    # sequential re-subscription over a cold replay of the same timeline, twice on one observable object
+    def cold_sub(observer, scheduler=None):
+        for ev in timeline:
+            if ev[0] == "N":
+                observer.on_next(ev[1])
+            elif ev[0] == "E":
+                observer.on_error(ev[1])
+            else:
+                observer.on_completed()
+        from reactivex.disposable import Disposable
+
+        return Disposable()
+    cobs = reactivex.create(cold_sub).pipe(eval(witness, env))
+    seq = []
+    for _ in range(2):
+        r = Recorder()
+        try:
+            cobs.subscribe(r.on_next, r.on_error, r.on_completed)
+        except Exception as e:
+            r.steps[-1].append(("ESCAPED", type(e).__name__))
+        seq.append(flat(truncate(r.steps)))
+    return truncate(r1.steps), truncate(r2.steps), seq
+
+
+def run_real_reuse(witness, params, timeline):
+    """C44: ONE operator object applied to two independent sources, events interleaved"""
+    import reactivex
+    from reactivex import operators as ops
+    from reactivex.subject import Subject
+
+    env = {"ops": ops, "reactivex": reactivex, "rx": reactivex}
+    env.update(params)
+    op = eval(witness, env)
+    s1, s2 = Subject(), Subject()
+    a, b = s1.pipe(op), s2.pipe(op)
+    r1, r2 = Recorder(), Recorder()
+    a.subscribe(r1.on_next, r1.on_error, r1.on_completed)
+    b.subscribe(r2.on_next, r2.on_error, r2.on_completed)
+    for ev in timeline:
+        _feed(s1, ev, [r1])
+        _feed(s2, ev, [r2])
+    return truncate(r1.steps), truncate(r2.steps)
+
+
+def diff_scope(c, mode, max_len=3, budget_s=60.0):
+    """bounded search for a C04 (mode='resub') or C44 (mode='reuse') counter-example of one operator"""
+    cls = spec_class(c)
+    t0 = time.time()
+    cases = 0
+    for params in param_grid(c):
+        if not requires_ok(c, params) or [ex for cond, ex in c.raises if eval(cond, {}, dict(params))]:
+            continue
+        for tl in timelines(max_len, elem_values(c, VALUES[:4])):
+            cases += 1
+            spec = run_spec(cls, params, tl)
+            if mode == "resub":
+                a, b, seq = run_real_resub(c.witness, params, tl)
+                bad = a != spec or b != spec or any(s != flat(spec) for s in seq)
+                real = {"overlapping": [a, b], "sequential": seq}
+            else:
+                a, b = run_real_reuse(c.witness, params, tl)
+                bad = a != spec or b != spec
+                real = {"two_sources": [a, b]}
+            if bad:
+                return {"cases": cases, "found": [{"params": show(params), "timeline": show(tl), "real": show(real), "spec": show(spec),
+                                                   "_case": (params, tl)}], "seconds": time.time() - t0}
+            if time.time() - t0 > budget_s:
+                return {"cases": cases, "found": [], "seconds": time.time() - t0, "budget_exhausted": True}
+    return {"cases": cases, "found": [], "seconds": time.time() - t0}
+
+
+SCOPE_REPLAY_TEMPLATE = '''#!/venv/bin/python
+"""Replay of a counter-example found for property {prop}.
+obligation: {oid}
+{what}"""
+import sys
+sys.path.insert(0, {verif!r})
+from rxvc import diffrun
+c = diffrun.contract_of({mod!r}, {name!r})
+case = {case}
+params = diffrun.decode_params(c, case["params"])
+timeline = diffrun.decode_timeline(case["timeline"])
+spec = diffrun.run_spec(diffrun.spec_class(c), params, timeline)
+real = diffrun.{fn}(c.witness, params, timeline)
+print("operator :", c.witness, case["params"])
+print("input    :", case["timeline"])
+print("real     :", real)
+print("expected (each subscription / application):", spec)
+sys.exit(0 if diffrun.scope_ok({mode!r}, real, spec) else 1)
+'''
+
+
+def scope_ok(mode, real, spec):
+    if mode == "resub":
+        a, b, seq = real
+        return a == spec and b == spec and all(s == flat(spec) for s in seq)
+    a, b = real
+    return a == spec and b == spec
+
+
 def timelines(max_len, values):
     for n in range(max_len + 1):
         for elems in itertools.product(values, repeat=n):
@@ -421,7 +551,22 @@ def main(argv):
     mode, modname, name = argv[:3]
     opts = json.loads(argv[3]) if len(argv) > 3 else {}
     c = contract_of(modname, name)
-    if mode == "validate":
+    if mode in ("resub", "reuse"):
+        res = diff_scope(c, mode, opts.get("max_len", 3), opts.get("budget_s", 60.0))
+        for f in res["found"]:
+            case = f.pop("_case", None)
+            if case is not None:
+                f["case"] = {"params": encode_params(c, case[0]), "timeline": encode_timeline(case[1])}
+                if "replay_path" in opts:
+                    os.makedirs(os.path.dirname(opts["replay_path"]), exist_ok=True)
+                    what = ("Subscribing again (overlapping and sequentially) to ONE observable object gives different results."
+                            if mode == "resub" else "ONE operator object applied to two independent sources leaks state between them.")
+                    with open(opts["replay_path"], "w") as fh:
+                        fh.write(SCOPE_REPLAY_TEMPLATE.format(prop=opts.get("prop", "?"), oid=opts.get("oid", "?"), what=what,
+                                                              verif=VERIF, mod=modname, name=name, case=json.dumps(f["case"]),
+                                                              fn="run_real_resub" if mode == "resub" else "run_real_reuse", mode=mode))
+                    res["replay"] = opts["replay_path"]
+    elif mode == "validate":
         res = validate_spec(c, opts.get("max_len", 4))
     elif mode in ("diff", "replay"):
         res = diff_real(c, opts.get("max_len", 3), pin=opts.get("pin"), budget_s=opts.get("budget_s", 60.0))
